@@ -124,6 +124,8 @@ CORPUS = {
     "string-overload-called-from-earlier-helper": S("def report(n):\n    show(n)\n    show('ticks')\ndef show(x):\n    mon.write(x)\nreport(3)\n"),
     "string-overload-first-called-from-earlier-helper": S("def report(n):\n    show('ticks')\n    show(n)\ndef show(x):\n    mon.write(x)\nreport(3)\n"),
     "escaped-quote-then-hash-inside-literal": S("banner = \"screen 7\\\" #2 ready\"\nmon.write(banner)\nnote = 'it\\'s unit #2'\nmon.write(note)\nmon.write(len(banner))\n"),
+    "chained-comparison-evaluates-the-middle-once": S("def mid(v):\n    mon.write(v)\n    return v + 1\nk = 3\nwhile True:\n    if 1 < mid(k) < 9:\n        mon.write(100)\n    x = 0 < mid(k) + 1 <= 5 < k\n    mon.write(x)\n"
+                                                      "    y = 1 < (1 < (2 < mid(k) < 9) < 3) < 3\n    mon.write(y)\n    k = k + 3\n    sleep(5)\n"),
     "main-loop-header-with-trailing-comment": S("k = 0\nwhile True:  # main loop\n    k = k + 1\n    mon.write(k)\n    sleep(5)\n"),
     "sleep-in-branches": S("k = 0\nwhile True:\n    if k % 2 == 0:\n        sleep(100)\n    else:\n        sleep(250)\n    k = k + 1\n    mon.write(k)\n"),
 }
